@@ -191,6 +191,21 @@ def run_triple(ctx, p):
               lambda: '%s(%s): packed vector gives %s, separate scalars give %s' % (e['name'], v, core.short(getattr(packed[1], 'data', packed[1]), 300), core.short(getattr(scal[1], 'data', scal[1]), 300)))
     ctx.cell('triple', e['name'])
     ctx.nontrivial('triple', e['name'], [float('%.9g' % x) for x in v])
+    # too few separate scalars: like a vector that is too short -- an exception, or a call form with its own documented meaning
+    # (e.g. SE2(x, y)); never a result padded with NaN / None or an object holding nothing
+    for k in range(1, len(v)):
+        short = attempt(e, [float(x) for x in v[:k]] + list(args[1:]), kwargs, None)
+        if short[0] == 'exc':
+            ctx.ok('triple')
+            continue
+        r = short[1]
+        d_ = getattr(r, 'data', None)
+        if isinstance(d_, list):
+            ok = len(d_) >= 1 and all(isinstance(x, np.ndarray) and np.all(np.isfinite(np.asarray(x, dtype=np.float64))) for x in d_)
+        else:
+            ok = r is not None and isinstance(r, np.ndarray) and np.all(np.isfinite(np.asarray(r, dtype=np.float64)))
+        ctx.judge('triple', ok, dict(sig, kind='too_few_scalars_padded', given=k),
+                  lambda: '%s given %d of %d separate scalars returned %s' % (e['name'], k, len(v), core.short(d_ if isinstance(d_, list) else r, 200)))
 
 
 def unit_kw(e):
